@@ -29,6 +29,8 @@ for s in sorted(os.listdir(os.path.join(ROOT, "seeded"))):
         if u:
             side = "; proof side: " + u.split(" function=")[0].split(" obligation=")[0].lower() + " in `" + (re.search(r"(function|obligation)=(\S+)", u).group(2)[:50] if re.search(r"(function|obligation)=(\S+)", u) else "") + "`"
         caught = {"1": "**caught** (exit 1): ", "0": "MISSED (exit 0)", "2": "undecided (exit 2)"}.get(rc, f"exit {rc}") + (how + side if rc == "1" else side)
+    if m.get("neutralised"):
+        caught = ("no longer a violation on the fixed tree (exit " + (r[2] if r else "?") + " is correct): " + m["neutralised"][:230])
     rows.append(f"| {s} | {m['property']} | {', '.join(os.path.basename(f) for f in m['files_changed'])} | {first} | {caught} |")
 text = """
 
